@@ -1,7 +1,7 @@
 (* C02 — Measurement samples follow the Born rule of the measured state.
    Only statements closed by [exact]; proofs live in C02/. *)
 From Coq Require Import ZArith List Bool Reals.
-From PV Require Import C02.PostselectModel C02.PostselectProofs C02.DistModel C02.DistProofs C02.RejectProofs C02.ChainProofs.
+From PV Require Import C02.PostselectModel C02.PostselectProofs C02.DistModel C02.DistProofs C02.RejectProofs C02.ChainProofs C02.ImperfectModel C02.ShotsProofs.
 Import ListNotations.
 Open Scope Z_scope.
 
@@ -109,6 +109,23 @@ Theorem C02_chain_rule_law :
   mass (chain (N:=RN) outs P n pre) (eql X eqbX (pre ++ t)) = (P (pre ++ t) / P pre)%R.
 Proof. exact chain_rule_law. Qed.
 Print Assumptions C02_chain_rule_law.
+
+(* consecutive shots of a stateless sampler: the law of a sequence of shots is the product of the
+   single-shot laws, for every single-shot law and every sequence *)
+Theorem C02_consecutive_shots_product_law : forall (A : Type) (eqb : A -> A -> bool)
+  (d : dist RN A) (l : list A),
+  mass (iid d (length l)) (eqlA A eqb l) = rprod (map (fun x => mass d (fun a => eqb a x)) l).
+Proof. exact iid_law. Qed.
+Print Assumptions C02_consecutive_shots_product_law.
+
+(* imperfect detection: one categorical draw per mode from the column of the detector matrix
+   selected by the actual count; the detected outcome o has the probability the shots=None
+   branch assigns to it, prod_m column_m[o_m], whenever every column sums to one *)
+Theorem C02_imperfect_detection_law : forall (cols : list (list R)) (o : list nat),
+  Forall (fun c => nsum (N:=RN) c = 1%R) cols -> length o = length cols ->
+  mass (detect (N:=RN) cols) (eqlN o) = outcome_probability (N:=RN) cols o.
+Proof. exact imperfect_detection_law. Qed.
+Print Assumptions C02_imperfect_detection_law.
 
 Example C02_example_accept :
   run_from true true [0%nat] [1] 2 2 5 0 [Kept 0 1; Kept 0 0] = Accepted [1] 1%nat [].
